@@ -608,7 +608,7 @@ def c08_one(rec, case):
     spec = pkg.Spec(['mod_%s' % chr(97 + i) for i in range(n_models)], wav if not c['wav_desc'] else wav[::-1], None if n_ap == 1 else np.logspace(2, 5, n_ap),
                     flux if not c['wav_desc'] else flux[:, :, ::-1], 0.05 * (flux if not c['wav_desc'] else flux[:, :, ::-1]),
                     par_order=list(rng.permutation(n_models)) if (c['permute'] and version == 1) else (list(rng.permutation(n_models)) if c['permute'] else None))
-    spec.logd_step = 0.1
+    spec.logd_step = 0.125        # log10(10/1)/0.125 = 8 exactly: the trial distances are exactly 9 points
     centres = [1.5, 6., 20., 70.]
     filters = [_box_filter('F%d' % j, cw * 0.8, cw * 1.2, cw, n=4, desc=bool(j % 2)) for j, cw in enumerate(centres)]
     m = c['m'] % n_models
@@ -624,7 +624,7 @@ def c08_one(rec, case):
         dr = [1., 10.] * u.kpc
         theta = 3.
         if n_ap > 1:
-            grid = np.logspace(0, 1, 11)
+            grid = np.logspace(0, 1, 9)
             d0 = grid[c['d_idx'] % len(grid)]
             from .io_props import _interp_oracle
             mflux = np.array([_interp_oracle(spec.apertures, ef[j][m], [theta * d0 * 1000.])[0] / d0 ** 2 for j in range(n_f)])
@@ -632,8 +632,10 @@ def c08_one(rec, case):
         else:
             sc0 = c['sc0']
             mflux = np.array([ef[j][m, 0] for j in range(n_f)]) * 10. ** (-2 * sc0)
-        obs = mflux * 10. ** (av0 * k)
         rel = c['rel']
+        # the fitter works with log10 F - 0.5 (sigma/F)^2 / ln 10 (data-format page): synthesise the photometry so
+        # that THIS quantity is the model's, otherwise a large relative error biases A_V / scale by design
+        obs = mflux * 10. ** (av0 * k) * 10. ** (0.5 * rel ** 2 / math.log(10.))
         line = pkg.make_source('planted', [1] * n_f, obs, obs * rel).to_ascii()
         # precision of to_ascii is 4 digits: synthesise from the printed numbers to keep chi2 ~ 0 meaningful
         data, out, txt = os.path.join(d, 'data.txt'), os.path.join(d, 'fits.out'), os.path.join(d, 'pars.txt')
@@ -653,8 +655,9 @@ def c08_one(rec, case):
         nm = spec.names[m]
         ok &= rec.expect(row['model_name'] == nm, 'planted_ranked_first', 'planted %s (A_V=%.2f) but %s is ranked first (chi2=%s)' % (nm, av0, row['model_name'], row['chi2']), case)
         sigma = rel / math.log(10.)
-        ok &= rec.expect(float(row['chi2']) <= 1e-3 + n_f * (2e-4 / sigma) ** 2, 'chi2_near_zero', 'planted model has chi2=%s' % row['chi2'], case)
-        ok &= rec.expect(abs(float(row['av']) - av0) <= 0.02 + 0.02 * av0, 'av_recovered', 'A_V reported %s, planted %.3f' % (row['av'], av0), case)
+        # the data file carries 4 significant digits: log10 flux is off by up to 2.2e-4
+        ok &= rec.expect(float(row['chi2']) <= 2e-3 + n_f * (4e-4 / sigma) ** 2, 'chi2_near_zero', 'planted model has chi2=%s' % row['chi2'], case)
+        ok &= rec.expect(abs(float(row['av']) - av0) <= 0.03 + 0.02 * av0, 'av_recovered', 'A_V reported %s, planted %.3f' % (row['av'], av0), case)
         ok &= rec.expect(abs(float(row['scale']) - sc0) <= 0.01, 'scale_recovered', 'scale reported %s, planted %.3f' % (row['scale'], sc0), case)
         for kk, v in spec.params.items():
             ok &= rec.expect(abs(float(row[kk]) - v[m]) <= 6e-4 * abs(v[m]), 'own_parameter_row', 'parameter %s printed next to %s is %s, its own row says %.4g' % (kk, nm, row[kk], v[m]), case)
@@ -669,7 +672,7 @@ def run_c08(tier, seed):
     n = 6 if tier == 'quick' else 150
     for t in range(n):
         case = dict(seed=seed, tag='c08', pseed=int(rng.integers(1, 10 ** 6)), version=1 + t % 2, n_models=int(rng.integers(2, 7)), n_ap=1 if (t // 2) % 2 == 0 else 3,
-                    m=int(rng.integers(0, 8)), av0=float(rng.uniform(0.2, 6.)), sc0=float(rng.uniform(-0.5, 0.8)), d_idx=int(rng.integers(0, 11)), rel=float(10. ** rng.uniform(-3, -0.5)),
+                    m=int(rng.integers(0, 8)), av0=float(rng.uniform(0.2, 6.)), sc0=float(rng.uniform(-0.5, 0.8)), d_idx=int(rng.integers(0, 9)), rel=float(10. ** rng.uniform(-2, -0.5)),
                     permute=bool(t % 3), wav_desc=bool(t % 2), second=bool(t % 4 < 2))
         try:
             c08_one(rec, case)
